@@ -34,3 +34,104 @@ fn body_consts() {
     assert!(MAX_DISTANCE_NORMAL == 128 * 6);
     assert!(MAX_DISTANCE_LONG == 256 * 6);
 }
+
+// K6: the run-time dispatch ladder (OnceLock + CPU detection).  The detection queries are
+// replaced by nondeterministic booleans and the four candidate backends by tagging stubs, so the
+// query decides, for EVERY detection outcome, which backend the entry point calls and with which
+// arguments; that each backend computes the reference distance is the subject of k_*.
+#[cfg(all(feature = "opt-simd-body-comparison", feature = "detect-features"))]
+mod ladder {
+    #![allow(unsafe_code)]
+    #![allow(static_mut_refs)]
+    use super::super::*;
+
+    static mut DET: [bool; 3] = [false; 3]; // avx2, sse4.1, sse2
+    static mut CALLED: u8 = 0;
+    static mut ARGS: (usize, usize) = (0, 0);
+    fn det_avx2() -> bool {
+        unsafe { DET[0] }
+    }
+    fn det_sse41() -> bool {
+        unsafe { DET[1] }
+    }
+    fn det_sse2() -> bool {
+        unsafe { DET[2] }
+    }
+    macro_rules! tag {
+        ($name:ident, $n:literal, $tag:literal) => {
+            unsafe fn $name(a: &[u8; $n], b: &[u8; $n]) -> u32 {
+                CALLED = $tag;
+                ARGS = (a.as_ptr() as usize, b.as_ptr() as usize);
+                1000 + $tag as u32
+            }
+        };
+    }
+    macro_rules! tag_safe {
+        ($name:ident, $n:literal, $tag:literal) => {
+            fn $name(a: &[u8; $n], b: &[u8; $n]) -> u32 {
+                unsafe {
+                    CALLED = $tag;
+                    ARGS = (a.as_ptr() as usize, b.as_ptr() as usize);
+                }
+                1000 + $tag as u32
+            }
+        };
+    }
+    tag!(t_avx2_32, 32, 1);
+    tag!(t_sse41_32, 32, 2);
+    tag!(t_sse2_32, 32, 3);
+    tag_safe!(t_p64_32, 32, 4);
+    tag!(t_avx2_64, 64, 1);
+    tag!(t_sse41_64, 64, 2);
+    tag!(t_sse2_64, 64, 3);
+    tag_safe!(t_p64_64, 64, 4);
+
+    macro_rules! ladder {
+        ($name:ident, $f:ident, $n:literal, $s1:ident, $s2:ident, $s3:ident, $s4:ident) => {
+            #[kani::proof]
+            #[kani::unwind(8)]
+            #[kani::stub(std_detect::detect::__is_feature_detected::avx2, det_avx2)]
+            #[kani::stub(std_detect::detect::__is_feature_detected::sse4_1, det_sse41)]
+            #[kani::stub(std_detect::detect::__is_feature_detected::sse2, det_sse2)]
+            #[kani::stub(super::super::x86_avx2::$f, $s1)]
+            #[kani::stub(super::super::x86_sse4_1::$f, $s2)]
+            #[kani::stub(super::super::x86_sse2::$f, $s3)]
+            fn $name() {
+                let det: [bool; 3] = kani::any();
+                unsafe {
+                    DET = det;
+                    CALLED = 0;
+                }
+                let a: [u8; $n] = kani::any();
+                let b: [u8; $n] = kani::any();
+                let d = $f(&a, &b);
+                // (on x86_64 `is_x86_feature_detected!("sse2")` is true at compile time, so the pseudo-SIMD
+                // fallback is unreachable there and the run-time answer for sse2 is never consulted)
+                let expect: u8 = if det[0] { 1 } else if det[1] { 2 } else { 3 };
+                let (called, args) = unsafe { (CALLED, ARGS) };
+                if expect == 4 {
+                    // no SIMD backend: the (unstubbed) 64-bit pseudo-SIMD function itself
+                    assert!(called == 0);
+                    assert!(d == super::super::pseudo_simd_64::$f(&a, &b));
+                } else {
+                    assert!(called == expect);
+                    assert!(d == 1000 + expect as u32);
+                    assert!(args == (a.as_ptr() as usize, b.as_ptr() as usize));
+                }
+                // a second call goes through the cached choice: same backend
+                unsafe {
+                    CALLED = 0;
+                    DET = [false; 3];
+                }
+                let d2 = $f(&a, &b);
+                assert!(d2 == d && unsafe { CALLED } == if expect == 4 { 0 } else { expect });
+                kani::cover!(expect == 3 && !det[2]);
+                kani::cover!(expect == 2);
+            }
+        };
+    }
+    //@ h=body_ladder_32 props=C07,C02 cfgs=K6 tier=q t=900 submod=ladder | funcs: dist_body::distance_32 with run-time dispatch (OnceLock::get_or_init + detection ladder avx2 > sse4.1 > sse2; sse2 is a compile-time fact on x86_64) | bound: every outcome of the three CPU-feature queries x all argument pairs: exactly the backend the ladder prescribes is called, with the caller's arguments, its result is returned, and the cached choice is reused by a later call | stubs: std_detect::detect::__is_feature_detected::{avx2,sse4_1,sse2} -> harness-chosen booleans; the three SIMD backend functions -> tagging stubs (their correctness: k_* lemmas)
+    ladder!(body_ladder_32, distance_32, 32, t_avx2_32, t_sse41_32, t_sse2_32, t_p64_32);
+    //@ h=body_ladder_64 props=C07,C02 cfgs=K6 tier=q t=900 submod=ladder | funcs: dist_body::distance_64 with run-time dispatch | bound: as body_ladder_32 | stubs: as body_ladder_32
+    ladder!(body_ladder_64, distance_64, 64, t_avx2_64, t_sse41_64, t_sse2_64, t_p64_64);
+}
